@@ -17,7 +17,9 @@ func init() {
 		maxCuts := fs.Int("maxcuts", 0, "sample at most this many cut points per file (0: all)")
 		seed := fs.Int64("seed", 1, "seed of the sample")
 		only := fs.Int("only", -1, "execute only this cut point (replay)")
+		rk := fs.Int("rk", -1, "hand every decoder this reader kind (replay; default: the kinds rotate over the files)")
 		_ = fs.Parse(args)
+		truncfam.PinRk = *rk
 		return truncfam.RunCases(*in, *out, *j, *maxCuts, *seed, *only)
 	}
 	commands["trunc-random"] = func(args []string) error {
@@ -36,7 +38,9 @@ func init() {
 		maxCuts := fs.Int("maxcuts", 200, "sample at most this many cut points per file")
 		seed := fs.Int64("seed", 1, "seed of the sample")
 		only := fs.Int("only", -1, "execute only this cut point (replay)")
+		rk := fs.Int("rk", -1, "hand every decoder this reader kind (replay; default: the kinds rotate over the files)")
 		_ = fs.Parse(args)
+		truncfam.PinRk = *rk
 		return truncfam.RunFiles(fs.Args(), *out, *j, *maxCuts, *seed, *only)
 	}
 	commands["trunc-write"] = func(args []string) error {
